@@ -82,7 +82,8 @@ def harness_dir():
         if not (alt / "src").exists():
             os.symlink(HARNESS / "src", alt / "src")
         if (HARNESS / "target").exists() and not (alt / "target").exists():
-            sh(["cp", "-a", str(HARNESS / "target"), str(alt / "target")], timeout=600)
+            # best effort: files may vanish while someone else builds; cargo rebuilds what is missing
+            sh(["cp", "-a", str(HARNESS / "target"), str(alt / "target")], timeout=900, check=False)
     return alt
 
 
